@@ -159,7 +159,7 @@ example : ∃ r b, finishMerge { safe := some false } (.call "f") [] (.comp { pr
 /- "Merging can only spread unsafety, never remove it … below an !unsafe node": `_replace_self` and
    (since the repair "flags merged into the surviving node were not handed down to its children")
    `_replace_other` end with `_propagate_implicit_values` on the surviving node. If what that node
-   hands down (`_get_child_kwargs`: `implicit_safe = notnone_or(_safe, _implicit_safe)`) is `False`,
+   hands down (`_get_child_kwargs`: an inherited `False` wins, else `notnone_or(_safe, _implicit_safe)`) is `False`,
    then after the propagation EVERY direct child carries `_implicit_safe = False` and is therefore
    unsafe — whatever the child's flags were before, whether or not anything else changed. -/
 theorem C07_merge_unsafe_reaches_children (f : Flags) (k : CompKind) (cs : List (Key × Node)) (kw : ChildKw)
@@ -167,21 +167,27 @@ theorem C07_merge_unsafe_reaches_children (f : Flags) (k : CompKind) (cs : List 
     ∀ key c, (key, c) ∈ (propagate (.comp f k cs)).children →
       c.flags.iSafe = some false ∧ eSafe c.flags = false := by
   intro key c hm
-  have hst : (Node.comp f k cs).isStream = false := by
-    cases k <;> first | rfl | simp [childKw] at hk
-  have := propagate_children_unsafe (.comp f k cs) hst
-    (by show f.safe.or f.iSafe = some false; rw [← childKw_iSafe hk]; exact hs) key c hm
+  have := propagate_children_unsafe_kw f k cs kw hk hs key c hm
   exact ⟨this, eSafe_of_iSafe_false this⟩
 
 example : childKw { safe := some false } .dict = some { iDel := none, iNew := none, iSafe := some false } ∧
     (propagate (.comp { safe := some false } .dict [(.str "x", .leaf {} (.scalar (.int 1)))])).children
       = [(.str "x", .leaf { iSafe := some false } (.scalar (.int 1)))] := ⟨rfl, rfl⟩
 
-/- the hypothesis is about what the node hands down, not about its own effective safety: a node
-   that is unsafe only by inheritance but carries an explicit `safe=True` hands down `True`
-   (`_get_child_kwargs` takes the explicit flag first) -/
+/- "below an !unsafe node": a node that is unsafe by inheritance hands `False` down even when it carries an
+   explicit `safe=True` itself (repair "an explicit safe=True below an unsafe node made its children safe
+   again"; before it `_get_child_kwargs` took the explicit flag first and handed down `True`) -/
+theorem C07_below_unsafe_stays_unsafe (f : Flags) (k : CompKind) (kw : ChildKw)
+    (hk : childKw f k = some kw) (h : f.iSafe = some false ∨ f.safe = some false) : kw.iSafe = some false := by
+  rw [childKw_iSafe_eq hk]
+  rcases h with h | h
+  · simp [h]
+  · split
+    · rfl
+    · simp [h, Option.or]
+
 example : eSafe ({ safe := some true, iSafe := some false } : Flags) = false ∧
-    (childKw { safe := some true, iSafe := some false } .dict).map (·.iSafe) = some (some true) := by decide
+    (childKw { safe := some true, iSafe := some false } .dict).map (·.iSafe) = some (some false) := by decide
 
 /- the explicit mark of either node survives in the winner: `_safe = notnone_or(_safe, True) and other._safe` -/
 theorem C07_merge_explicit_unsafe_kept (w l : Flags) (h : w.safe = some false ∨ l.safe = some false) :
